@@ -252,7 +252,8 @@ class C05:
         g = ("param", s.params[0])
         want = ("attr", ("call", ("global", f"{CONV}:geometry_to_shapely", "func"), (g,), ()), "bounds")
         site = f"{s.module.relpath}:{s.node.lineno} compute_bounds"
-        if len(s.returns) == 1 and s.returns[0].term == want:
+        spelled_out = ("tuple", tuple(("sub", want, ("const", i)) for i in range(4)))  # the four bounds, in shapely's order
+        if len(s.returns) == 1 and s.returns[0].term in (want, spelled_out):
             ctx.ok("R05.3", site, "returns geometry_to_shapely(geometry).bounds unmodified")
             if not full:
                 return
